@@ -63,13 +63,15 @@ def decode (tc : TC) : Option JV → JV
   | some v => v
 
 /-- the guard of one `m["k"] = x` statement, evaluated on the field's value -/
-def guard : Guard → JV → Bool
+def guard (tc : TC) : Guard → JV → Bool
   | .always, _ => true
   | .neEmptyStr, v => !v.isEmptyStr
   | .isTrue, v => !v.isFalse
   | .neZero, v => !v.isZeroNum
   | .neNil, v => !v.isNull
-  | .lenNe0, v => !(v.isNull || v.isEmptyColl || v.isEmptyStr)
+  | .lenNe0, v => (match tc with
+                   | .str => !v.isEmptyStr                    -- len of a string
+                   | _ => !(v.isNull || v.isEmptyColl))        -- len of a slice or map (nil has length 0)
   | .addProps, v => !v.isNull
   | .unknown _, _ => false
 
@@ -91,13 +93,16 @@ def unmarshal (d : Desc) (o : Obj) : Rec :=
   else
     { fld := fun g => match fieldByGo d g with | some f => zero f.tc | none => .null, ext := [] }
 
-def emit (child : String → JV → JV) (r : Rec) (m : MField) : Option (String × JV) :=
-  if guard m.guard (r.fld m.goName) then some (m.key, child m.goName (r.fld m.goName)) else none
+def tcOfGo (d : Desc) (g : String) : TC :=
+  match fieldByGo d g with | some f => f.tc | none => .unknown
+
+def emit (child : String → JV → JV) (d : Desc) (r : Rec) (m : MField) : Option (String × JV) :=
+  if guard (tcOfGo d m.goName) m.guard (r.fld m.goName) then some (m.key, child m.goName (r.fld m.goName)) else none
 
 /-- `MarshalYAML`; `child` is what marshalling does to the value of a Go field (identity in the flat model) -/
 def marshalWith (child : String → JV → JV) (d : Desc) (r : Rec) : Obj :=
   if d.refEarly && !(r.fld "Ref").isEmptyStr then [("$ref", r.fld "Ref")]
-  else d.marsh.filterMap (emit child r) ++ (if d.extCopy then r.ext else [])
+  else d.marsh.filterMap (emit child d r) ++ (if d.extCopy then r.ext else [])
 
 def marshal (d : Desc) (r : Rec) : Obj := marshalWith (fun _ v => v) d r
 
@@ -134,10 +139,15 @@ def shapeKnown : Shape → Bool
   | .pmap s => shapeKnown s
   | _ => true
 
+/-- `compat` plus the one combination that loses nothing but is not stable: a named map written
+    unconditionally (nil ↦ null ↦ empty map ↦ {}) — `RequestBody.content`, `OAuthFlow.scopes` -/
+def compatW (tc : TC) (g : Guard) : Bool :=
+  compat tc g || (tc == .nmap && g == .always)
+
 /-- every marshal statement reads the field whose tag is the key it writes, under a fitting guard -/
-def marshFieldOK (d : Desc) (m : MField) : Bool :=
+def marshFieldOK (c : TC → Guard → Bool) (d : Desc) (m : MField) : Bool :=
   match fieldByGo d m.goName with
-  | some f => f.key == m.key && compat f.tc m.guard
+  | some f => f.key == m.key && c f.tc m.guard
   | none => false
 
 def tagKeys (d : Desc) : List String := d.fields.map (·.key)
@@ -168,21 +178,33 @@ def requiredKeys (d : Desc) : List String := specRequired d.name
 def expectedMarshKeys (d : Desc) : List String :=
   if d.refEarly then (tagKeys d).filter (· != "$ref") else tagKeys d
 
-def structAgree (d : Desc) : Bool :=
+/-- the part of the agreement the lookup characterisation needs (no guard/type fit) -/
+def structWF (d : Desc) : Bool :=
   marshKeys d == expectedMarshKeys d && d.dels == tagKeys d &&
   (tagKeys d).Nodup && (d.fields.map (·.goName)).Nodup &&
-  d.marsh.all (marshFieldOK d) && d.fields.all (fun f => shapeKnown f.shape && f.tc != .unknown) &&
+  d.marsh.all (marshFieldOK (fun _ _ => true) d) &&
   (d.refEarly == (tagKeys d).contains "$ref") &&
   (!d.refEarly || (fieldByGo d "Ref").any (fun f => f.key == "$ref" && f.tc == .str)) &&
-  alwaysKeys d == specRequired d.name &&
   d.extCopy && d.unmExt && d.assignBack
 
-def Desc.agree (d : Desc) : Bool :=
+def structAgreeWith (c : TC → Guard → Bool) (d : Desc) : Bool :=
+  structWF d &&
+  d.marsh.all (marshFieldOK c d) && d.fields.all (fun f => shapeKnown f.shape && f.tc != .unknown) &&
+  alwaysKeys d == specRequired d.name
+
+def structAgree (d : Desc) : Bool := structAgreeWith compat d
+
+def Desc.agreeWith (c : TC → Guard → Bool) (d : Desc) : Bool :=
   d.unrecognised.isEmpty &&
   (match d.template with
-   | .struct => d.hasMarsh && d.hasUnm && d.delegates && structAgree d
+   | .struct => d.hasMarsh && d.hasUnm && d.delegates && structAgreeWith c d
    | .alias => d.uniform && shapeKnown d.valueShape
    | _ => d.hasMarsh && d.hasUnm && d.delegates && d.uniform && shapeKnown d.valueShape)
+
+/-- full agreement: the round trip of the kind loses nothing, invents nothing and is stable -/
+def Desc.agree (d : Desc) : Bool := d.agreeWith compat
+/-- weak agreement: loses nothing and invents nothing (stability may fail for a nil named map) -/
+def Desc.agreeW (d : Desc) : Bool := d.agreeWith compatW
 
 /-! ### spec side: normal form, written from the property text -/
 
@@ -231,8 +253,10 @@ def rtTypes : JV → JV
   | v => v
 
 /-- the `Schema.UnmarshalJSON` post-processing: `format: date` trims a `T00:00:00Z` suffix of a string example -/
+def hasDateSuffix (s : String) : Bool := "T00:00:00Z".toList.isSuffixOf s.toList
+
 def trimDate (s : String) : String :=
-  if s.endsWith "T00:00:00Z" then String.ofList (s.toList.take (s.length - 10)) else s
+  if hasDateSuffix s then String.ofList (s.toList.take (s.toList.length - 10)) else s
 
 def applyPost (d : Desc) (o : Obj) : Obj :=
   if d.post.contains "dateExampleTrim" then
@@ -245,7 +269,7 @@ def applyPost (d : Desc) (o : Obj) : Obj :=
 def dateTrimHit (d : Desc) (o : Obj) : Bool :=
   d.post.contains "dateExampleTrim" &&
   (match lookup "format" o, lookup "example" o with
-   | some (.str "date"), some (.str e) => e.endsWith "T00:00:00Z"
+   | some (.str "date"), some (.str e) => hasDateSuffix e
    | _, _ => false)
 
 /-- why the deep model has no value: the real code panics (nil dereference in a value-receiver
@@ -259,7 +283,7 @@ abbrev Res := Except Err
 def marshalDeep (f : Shape → JV → Res JV) (d : Desc) (r : Rec) : Res Obj :=
   if d.refEarly && !(r.fld "Ref").isEmptyStr then pure [("$ref", r.fld "Ref")]
   else
-    ((d.marsh.filter (fun m => guard m.guard (r.fld m.goName))).mapM
+    ((d.marsh.filter (fun m => guard (tcOfGo d m.goName) m.guard (r.fld m.goName))).mapM
       (fun (m : MField) => (f (shapeOfGo d m.goName) (r.fld m.goName)).map (fun v' => (m.key, v')))).map
       (fun fs => fs ++ (if d.extCopy then r.ext else []))
 
